@@ -508,13 +508,16 @@ def run_mutants(muts, units, seed):
             open(p, 'w').write(s2)
             killed = False
             hit = []
+            kf_obl = set(k.get('obligation') for k in known_findings().get('findings', []))
             for n, u in units.items():
                 if mu.get('unit') and mu['unit'] != n:
                     continue
                 r = run_unit(u['path'], tmp, seed, build_dir=os.path.join(tmp, 'build'))
                 if r['status'] == 'fail':
-                    killed = True
-                    hit.extend(m['obligation'] for m in r['failures'])
+                    new = [m['obligation'] for m in r['failures'] if m['obligation'] not in kf_obl]
+                    if new:
+                        killed = True
+                    hit.extend(new)
                 elif r['status'] == 'undecided':
                     hit.append('undecided: %s' % r['reason'])
             return {'name': mu['name'], 'killed': killed, 'obligations': sorted(set(hit))[:6]}
